@@ -701,6 +701,25 @@ func remapBlockHandles(block Block, handleMap []ExpressionHandle) {
 				k.Fun = f
 			}
 			block[i].Kind = k
+		case StmtImageAtomic:
+			k.Image = remap(k.Image)
+			k.Coordinate = remap(k.Coordinate)
+			remapPtr(k.ArrayIndex)
+			k.Value = remap(k.Value)
+			block[i].Kind = k
+		case StmtSubgroupBallot:
+			k.Result = remap(k.Result)
+			remapPtr(k.Predicate)
+			block[i].Kind = k
+		case StmtSubgroupCollectiveOperation:
+			k.Argument = remap(k.Argument)
+			k.Result = remap(k.Result)
+			block[i].Kind = k
+		case StmtSubgroupGather:
+			k.Mode = remapGatherMode(k.Mode, remap)
+			k.Argument = remap(k.Argument)
+			k.Result = remap(k.Result)
+			block[i].Kind = k
 		}
 	}
 }
